@@ -607,6 +607,7 @@ func runServerScenario(t *testing.T, rec *recorder, cfg *sysCfg, seed uint64, sc
 	rec.emit("Quiesce", "count", h.eng.CountConnections(), "opened", int(atomic.LoadInt32(&h.opened)), "closed", int(atomic.LoadInt32(&h.closedN)))
 	// shutdown
 	g := vsup.Goid()
+	h.awaitSlowTick()
 	switch cfg.stopSrc {
 	case "Stop":
 		rec.emit("StopReq", "src", "Stop", "g", g)
@@ -755,6 +756,7 @@ func runShutdownScenario(t *testing.T, rec *recorder, cfg *sysCfg, seed uint64, 
 	time.Sleep(time.Duration(5+rng.Intn(40)) * time.Millisecond)
 	close(trigger)
 	g := vsup.Goid()
+	h.awaitSlowTick()
 	switch cfg.stopSrc {
 	case "Stop":
 		rec.emit("StopReq", "src", "Stop", "g", g)
